@@ -199,8 +199,8 @@ func runC07(r *mon.Run) {
 	r.Rule = "cases: the union of the C01/C09/C10/C11/C12 workloads (Add, Sub, Mul, Quo, Abs, Neg, Round, Rem, QuoInteger, Reduce, Sqrt, Cbrt, " +
 		"Exp, Ln, Log10, Pow, Quantize, context-aware parsing) with the carry families stressed; every finite result is checked against the " +
 		"context: digits (counted from the decimal text) <= Precision, adjusted exponent <= MaxExponent, exponent >= Etiny for non-zero " +
-		"values, non-negative coefficient, valid form, exponent 0 for QuoInteger. distinct_nontrivial = distinct cases whose result is " +
-		"finite, non-zero and has exactly Precision digits or an adjusted exponent within 1 of a limit."
+		"values, non-negative coefficient, valid form, exponent 0 for QuoInteger. distinct_nontrivial = distinct cases whose exact " +
+		"result needed rounding, was subnormal or overflowed (as classified by the reference model), plus the transcendental cases."
 	r.Assumptions = []string{"only the fit is judged here, not the value (C01/C09/C10/C11/C12 judge values)"}
 	r.Serial("pinned", func(t *mon.T) { pinnedArith(t, "fit") })
 	r.Parallel("fit", r.N(400000, 40000000), func(t *mon.T) {
